@@ -1198,4 +1198,8 @@ theorem writeRune_rel_same (b1 b2 : Buffer) (r : Int) (h : BRel b1 b2) (hm : b1.
     BRel (b1.writeRune r) (b2.writeRune r) :=
   writeRune_rel _ _ _ _ h (by split <;> simp) (fun hh => absurd hh hm) (fun hh => absurd hh hm)
 
+
+theorem brel_init : BRel Buffer.init Buffer.init :=
+  ⟨inv_init, inv_init, rfl, rfl, rfl, pendRel_nil _⟩
+
 end Redact
